@@ -73,7 +73,15 @@ def seq(name, lst):
     out.append("%s == <<\n  %s\n>>" % (name, ",\n  ".join(tup(s) for s in lst)))
 seq("BaseTexts", BASE)
 seq("BaseTextsMore", BASE_MORE)
-seq("ExtraTexts", EXTRA)
+def heavy(s):
+    # numbers near the ends of the double range: their decimal text is expensive for TLC (round trip only in the thorough tier)
+    try:
+        f = abs(float(s))
+    except ValueError:
+        return False
+    return f != 0 and f != float('inf') and (f > 1e150 or f < 1e-150)
+seq("ExtraTexts", [s for s in EXTRA if not heavy(s)])
+seq("ExtraHeavyTexts", [s for s in EXTRA if heavy(s)])
 seq("SurrTexts", SURR)
 seq("ReviveTexts", REVIVE)
 out.append("MutAlphabet == %s" % tup(ALPHA))
